@@ -215,3 +215,65 @@ Theorem C01_coverage_aliased_is_exact_sampling_partial : forall rule W H gs,
         (if cov_exact rule (filter (g_live (my + 4 * q)) G) (my + 4 * q) (4 * p + 3 + x0 b * 4) then 255 else 0).
 Proof. exact rasterize_lines_coverage_aliased_exact. Qed.
 Print Assumptions C01_coverage_aliased_is_exact_sampling_partial.
+
+(* ---- slopes that are exact in 16.16 need no gap hypothesis (ExactSlopes.v) ---- *)
+Require Import RQ.ExactSlopes.
+
+(* (15) when dx * 2^14 is divisible by dy (vertical and 45-degree edges, every edge whose reduced dy divides 2^14: slopes
+   k/2, k/4, k/8 ... per quarter row) the fixed-point crossing is the exact crossing on every row, ties included *)
+Theorem C01_exact_slope_crossings_are_exact : forall xa ya xb yb y,
+  ya < yb -> ya <= y <= yb -> ((xb - xa) * 16384) mod (yb - ya) = 0 ->
+  Raster.rnd (fixed_cross xa ya xb yb y) = exact_round xa ya xb yb y.
+Proof. exact rnd_is_exact_round_exact_slope. Qed.
+Print Assumptions C01_exact_slope_crossings_are_exact.
+
+(* (16) FULL statement on that class of polygons, no hypothesis left about crossings: for every list of edges with
+   exact slopes - in particular every rectilinear and every octilinear polygon (17) - every surface size and position,
+   both rules, the mask byte of every pixel is 16*K (255 at K = 16; 16*K-1 is the accumulator's carry), K = the number of
+   the pixel's 16 sample cells inside the exact polygon with crossings rounded to the nearest quarter *)
+Theorem C01_coverage_is_exact_supersampling_for_exact_slopes : forall rule W H gs,
+  let r := add_segs (rast_new W H) gs in
+  let b := get_bounds r in
+  let G := map seg_geom gs in
+  0 <= H -> 0 <= r_w b -> 0 <= r_h b ->
+  all_exact_slopes G = true ->
+  exists r' buf',
+    rasterize blit_super rule r (maskbuf_new (x0 b) (y0 b) (r_w b) (r_h b)) =
+      Ok (r', mk_maskbuf (x0 b * 4) (y0 b * 4) (r_w b) buf') /\
+    length buf' = Z.to_nat (r_w b * r_h b + 1) /\ bytes_ok buf' /\
+    forall q p, 0 <= q < r_h b -> 0 <= p < r_w b ->
+      let K := Kpix_exact rule G (x0 b * 4) (y0 b * 4) q p in
+      0 <= K <= 16 /\
+      (zn buf' (q * r_w b + p) = Z.min 255 (16 * K) \/ zn buf' (q * r_w b + p) = 16 * K - 1).
+Proof. exact rasterize_lines_coverage_exact_slopes. Qed.
+Print Assumptions C01_coverage_is_exact_supersampling_for_exact_slopes.
+
+Theorem C01_coverage_aliased_is_exact_sampling_for_exact_slopes : forall rule W H gs,
+  let r := add_segs (rast_new W H) gs in
+  let b := get_bounds r in
+  let G := map seg_geom gs in
+  let my := y0 b * 4 in
+  0 <= H -> 0 <= r_w b -> 0 <= r_h b ->
+  all_exact_slopes G = true ->
+  exists r' buf',
+    rasterize blit_mask rule r (maskbuf_new (x0 b) (y0 b) (r_w b) (r_h b)) =
+      Ok (r', mk_maskbuf (x0 b * 4) my (r_w b) buf') /\
+    length buf' = Z.to_nat (r_w b * r_h b + 1) /\
+    forall q p, 0 <= q < r_h b -> 0 <= p < r_w b ->
+      zn buf' (q * r_w b + p) =
+        (if cov_exact rule (filter (g_live (my + 4 * q)) G) (my + 4 * q) (4 * p + 3 + x0 b * 4) then 255 else 0).
+Proof. exact rasterize_lines_coverage_aliased_exact_slopes. Qed.
+Print Assumptions C01_coverage_aliased_is_exact_sampling_for_exact_slopes.
+
+(* (17) the polygons users draw most are in the class *)
+Theorem C01_rectilinear_and_octilinear_polygons_have_exact_slopes : forall gs,
+  (rectilinear gs = true -> all_exact_slopes (map seg_geom gs) = true) /\
+  (octilinear gs = true -> all_exact_slopes (map seg_geom gs) = true).
+Proof. intro gs; split; [apply rectilinear_all_exact_slopes | apply octilinear_all_exact_slopes]. Qed.
+Print Assumptions C01_rectilinear_and_octilinear_polygons_have_exact_slopes.
+
+(* (18) which slopes are exact: the reduced denominator divides 2^14 *)
+Theorem C01_exact_slope_characterisation : forall xa ya xb yb w, ya < yb ->
+  (exact_slope (xa, ya, xb, yb, w) = true <-> ((yb - ya) / Z.gcd (xb - xa) (yb - ya) | 16384)).
+Proof. exact exact_slope_iff_reduced. Qed.
+Print Assumptions C01_exact_slope_characterisation.
